@@ -10,7 +10,7 @@ import warnings
 import numpy as np
 
 from . import interp, probes
-from .common import digest
+from .common import scribble, digest
 
 chi = probes.chi
 import pints  # noqa: E402
@@ -72,6 +72,7 @@ def replay_case(arg):
         fail('Construct', type(e).__name__, repr(e))
         return fails, cnt
     # ---- names and counts (C17 at the individual level) ----------------------------------
+    scribble(ll)
     if ll.n_parameters() != rec['nparams']:
         fail('Counts', 'n_parameters', (ll.n_parameters(), rec['nparams']))
     if list(ll.get_parameter_names()) != rec['names']:
